@@ -17,6 +17,8 @@ def show(a, top=True):
         return 'role:' + a[1]
     if k == 'true':
         return '@'
+    if k == 'empty':
+        return ''        # the empty check string (allow all); top level only
     if k == 'false':
         return '!'
     if k == 'rule':
@@ -44,7 +46,7 @@ def ev(a, roles, lookup):
         return a[1].lower() in roles
     if k == 'flag':
         return ('flag:' + a[1]) in roles
-    if k == 'true':
+    if k == 'true' or k == 'empty':
         return True
     if k == 'false':
         return False
@@ -124,7 +126,7 @@ def simplifications(a):
                 yield [k, a[1][:i] + a[1][i + 1:]]
     elif k in ('not', 'paren'):
         yield a[1]
-    if k not in ('true', 'false'):
+    if k not in ('true', 'false', 'empty'):
         yield ['false']
         yield ['true']
 
